@@ -252,10 +252,14 @@ def c07_cases(draw, max_base=3, max_rxn=4, max_spect=2):
     base = draw(st.lists(st.integers(0, NBASE - 1), min_size=nb, max_size=nb, unique=True))
     nr = draw(st.integers(1, max_rxn))
     rxns = []
+    seen = set()
     for j in range(nr):
         m = [draw(st.sampled_from([0, 1, -1, 2, -2])) for _ in base]
         if not any(m):
             m[j % nb] = 1                       # simplest shape: the j-th reaction is a plain pool reaction
+        while tuple(m) in seen or not any(m):   # ReactionSystem rejects duplicate reactions (precondition): the pool
+            m[j % nb] += 1                      # is independent, so distinct multiplier vectors = distinct reactions
+        seen.add(tuple(m))
         net = {}
         for mult, bi in zip(m, base):
             for s, n in net_of(BASE[bi][1], BASE[bi][2]).items():
@@ -355,7 +359,7 @@ def c08_single(draw):
 
 
 @st.composite
-def c08_batches(draw, size=100):
+def c08_batches(draw, size=200):
     return {"batch": [_c08_body(draw) for _ in range(size)]}
 
 
@@ -372,6 +376,14 @@ class ModelPrecip(object):
         for s, code in zip(self.species, case["amounts"]):
             self.c0[s] = 0.0 if code is None else 10.0 ** (code / 1000.0)
         self.net = {self.solid: -1, self.cat: 1, self.an: self.n_an}
+        # orientation handed to chempy: dissolution  MX(s) = M + nX  (K = Ksp)  or precipitation  M + nX = MX(s)  (1/Ksp)
+        self.reverse = bool(case.get("reverse", False))
+        if self.reverse:
+            self.rxn = ({self.cat: 1, self.an: self.n_an}, {self.solid: 1})
+            self.K = 1.0 / self.Ksp
+        else:
+            self.rxn = ({self.solid: 1}, {self.cat: 1, self.an: self.n_an})
+            self.K = self.Ksp
 
 
 @st.composite
@@ -386,4 +398,4 @@ def precip_cases(draw, salts=(0, 1, 2, 3)):
     an = amount() if shape in ("ions", "ions+solid", "anion+solid") else None
     sol = amount() if shape != "ions" else None
     return {"salt": salt, "lksp": lksp, "amounts": [cat, an, sol], "shape": shape,
-            "chain": draw(st.sampled_from(PRECIP_CHAINS))}
+            "chain": draw(st.sampled_from(PRECIP_CHAINS)), "reverse": draw(st.booleans())}
